@@ -54,12 +54,14 @@ type sWorld struct {
 	ops  []*sOp
 	byOp map[*operator.Operator]*sOp
 
-	applied, refused, misrouted int64
+	applied, refused, misrouted, streamErrors int64
 }
 
 type storeStream struct {
 	sw    *sWorld
 	store uint64
+	flaky bool
+	sent  int64
 }
 
 // Send is called by the HeartbeatStreams goroutine: the message is delivered to this store.
@@ -67,6 +69,11 @@ func (s *storeStream) Send(m *pdpb.RegionHeartbeatResponse) error {
 	sw := s.sw
 	if m.GetRegionId() == 0 {
 		return nil // keep-alive
+	}
+	if s.flaky && atomic.AddInt64(&s.sent, 1)%7 == 0 {
+		// the connection to this store breaks: HeartbeatStreams drops the stream, the command is lost
+		atomic.AddInt64(&sw.streamErrors, 1)
+		return fmt.Errorf("stream to store %d broken", s.store)
 	}
 	if m.GetTargetPeer().GetStoreId() != s.store {
 		atomic.AddInt64(&sw.misrouted, 1)
@@ -152,7 +159,7 @@ func stressRound(r *ev.Run, seed int64, round int) {
 	defer sw.hb.Close()
 	sw.oc = schedule.NewOperatorController(ctx, w.mc, sw.hb)
 	for _, st := range w.stores {
-		sw.hb.BindStream(st, &storeStream{sw: sw, store: st})
+		sw.hb.BindStream(st, &storeStream{sw: sw, store: st, flaky: st == w.stores[0]})
 	}
 	for _, id := range w.rids {
 		sw.regs[id] = &sReg{id: id, sim: w.regs[id].sim}
@@ -231,11 +238,39 @@ func stressRound(r *ev.Run, seed int64, round int) {
 						sw.oc.RemoveOperator(op)
 						r.Count("stress_RemoveOperator", 1)
 					}
-				case x < 88:
+				case x < 85:
 					_ = sw.oc.GetOperatorStatus(rid)
 					_ = sw.oc.GetOperators()
 					_ = sw.oc.GetWaitingOperators()
 					_ = sw.oc.GetOpInfluence(w.mc)
+					_ = sw.oc.OperatorCount(operator.OpRegion)
+					_ = sw.oc.GetHistory(time.Now().Add(-time.Hour))
+					sw.oc.PruneHistory()
+					sw.oc.GetFastOpInfluence(w.mc, operator.OpInfluence{StoresInfluence: map[uint64]*operator.StoreInfluence{}})
+					if op := sw.oc.GetOperator(rid); op != nil {
+						_ = sw.oc.ExceedStoreLimit(op)
+					}
+					if lr.Intn(4) == 0 { // the broken store reconnects
+						sw.hb.BindStream(w.stores[0], &storeStream{sw: sw, store: w.stores[0], flaky: true})
+					}
+				case x < 88: // one AddWaitingOperator call for every region: one starts, the others queue
+					var batch []*operator.Operator
+					genMu.Lock()
+					for _, id := range sw.rids {
+						if v := w.mc.GetRegion(id); v != nil {
+							w.regs[id].view = v
+							if res := w.generate(w.regs[id], v, false, []string{"add-peer", "transfer", "remove-peer"}[lr.Intn(3)]); res.err == nil && len(res.ops) == 1 {
+								res.ops[0].SetDesc("stress-batch")
+								batch = append(batch, res.ops[0])
+							}
+						}
+					}
+					genMu.Unlock()
+					if len(batch) >= 2 {
+						sw.register(batch)
+						sw.oc.AddWaitingOperator(batch...)
+						r.Count("stress_AddWaitingOperator_batch", 1)
+					}
 				case x < 94: // foreign conf change
 					g.mu.Lock()
 					var es []uint64
@@ -335,6 +370,7 @@ func stressRound(r *ev.Run, seed int64, round int) {
 	}
 	r.Count("stress_commands_applied", atomic.LoadInt64(&sw.applied))
 	r.Count("stress_commands_refused", atomic.LoadInt64(&sw.refused))
+	r.Count("stress_stream_errors", atomic.LoadInt64(&sw.streamErrors))
 	r.Count("stress_rounds", 1)
 }
 
